@@ -69,6 +69,11 @@ pub fn build_argv(c: &Case) -> (Vec<String>, Option<String>) {
             let mut z2 = z.clone();
             z2.vars.major = Some(t.major + 1);
             z2.vars.post = Some(z2.vars.post.unwrap_or(0).min(4_000_000_000) + 3);
+            // half of them were detected from another tag than the one now given: the distance and
+            // the dirty state are facts of the checkout and stay what the document says
+            if c.hash_len.unwrap_or(0) % 2 == 0 {
+                z2.vars.last_tag_version = Some("0.0.1-rc.9.post.1".into());
+            }
             z2
         } else {
             z
